@@ -133,7 +133,7 @@ func NewRunner(h *Hist, run *hx.Run) (*Runner, error) {
 		return nil, err
 	}
 	R.W.Quiet = true
-	r := &Runner{H: h, R: R, Run: run, idx: map[string]int{}, Uploaded: map[string]bool{}, prevRoots: map[string]bool{}}
+	r := &Runner{H: h, R: R, Run: run, idx: map[string]int{}, Uploaded: map[string]bool{}, prevRoots: map[string]bool{}, prevCI: "(CiNow RE RE)"}
 	for _, fs := range h.Files {
 		fi := FileInfo{Spec: fs, Content: fs.Content()}
 		inner, _, err := R.UploadBytes(fi.Content, false)
